@@ -268,6 +268,21 @@ fn ustruct_probe<const K: usize>(len: usize, off: usize) {
         assert!(UStruct::validate(b).is_ok());
     }
 }
-stamp!(c15_probe_aligned, 13, { let len: usize = kani::any(); kani::assume(len <= 11); ustruct_probe::<4>(len, 0) });
-stamp!(c15_probe_fixedlen, 13, { let off: usize = kani::any(); kani::assume(off < 2); ustruct_probe::<4>(10, off) });
-stamp!(c15_probe_concrete, 13, { ustruct_probe::<4>(10, 0) });
+
+/// Exhaustive case split over (len, off): the body runs with a CONCRETE length (so the exact-size allocation has a
+/// constant size, which keeps CBMC's memory model cheap) while (len, off) themselves stay symbolic: every length
+/// 0..=n and every misalignment 0..align is covered by exactly one case.
+fn each_len_off(n: usize, align: usize, f: impl Fn(usize, usize)) {
+    let (len, off) = any_len_off(n, align);
+    let mut hit = false;
+    let mut l = 0;
+    while l <= n {
+        if l == len {
+            if off == 0 { f(l, 0) } else { f(l, off) }
+            hit = true;
+        }
+        l += 1;
+    }
+    assert!(hit);
+}
+stamp!(c15_probe_split, 13, each_len_off(11, 2, |len, off| ustruct_probe::<4>(len, off)));
